@@ -5,14 +5,15 @@ Applies each seeded change / mechanical mutant to a scratch worktree of /repo, r
 `sim/check.py --tier quick` (scaled down) against it with VERIF_REPO, and compares the exit
 status with what is expected:
    round A (input/config-only breaks)       -> 0   (out of reach by design; must not alarm or crash)
-   round B (history), round C (preemption), D1, D3 -> 1;  D2 -> 0 or 1 at quick scale (thorough finds it)
+   round B (history), round C (preemption), D1, D3 -> 1;  D2, E1, E3 -> 0 or 1 at quick scale (thorough-scale targets);
+   E2 (FP-environment state, outside every property's quantifier) -> 0
    correct caches / lazy init / locking     -> 0   (no false alarm, no hang)
 Scratch worktrees live under $TMPDIR and are removed.  Usage: python3 sim/selftest/run.py [name ...]
 """
 import os, subprocess, sys, tempfile, json, re
 VERIF = os.path.dirname(os.path.dirname(os.path.dirname(os.path.abspath(__file__))))
 CASES = [(n, "patch", 0) for n in ("C01", "C07", "C08", "C13", "C16", "C17", "C19")] + \
-        [(n, "patch", 1) for n in ("C13h", "C19h", "C09h", "C19t", "C11t", "C14t", "D1", "D3")] + [("D2", "patch", None)] + \
+        [(n, "patch", 1) for n in ("C13h", "C19h", "C09h", "C19t", "C11t", "C14t", "D1", "D3")] + [("D2", "patch", None), ("E1", "patch", None), ("E3", "patch", None), ("E2", "patch", 0)] + \
         [("C13h_fulltag", "fulltag", 0), ("lazy_bad", "mk", 1), ("mutex_ok", "mk", 0), ("mutex_bad", "mk", 1),
          ("guard_ok", "mk", 0), ("once_ok", "mk", 0)]
 
